@@ -38,7 +38,7 @@ def main(argv=None):
     ap.add_argument("--panic-ok", action="store_true", help="panics end the path but are not findings")
     ap.add_argument("--param", action="append", default=[])
     ap.add_argument("--witnesses", type=int, default=24)
-    ap.add_argument("--path-steps", type=int, default=1_500_000)
+    ap.add_argument("--path-steps", type=int, default=4_000_000)
     ap.add_argument("--partial-ok", action="store_true",
                     help="a budget stop is reported as status 'partial' (explored part decided, rest stated as unexplored)")
     ap.add_argument("--random-order", action="store_true", help="pop the work list in a seed-dependent order")
